@@ -264,12 +264,39 @@ class PropertyDescriptor(Symbol):
             self._bind_owner_if_container_type(attr, owner=obj)
             setattr(obj, self.private_attr_name, attr)
         if isinstance(attr, MonitoredContainer):
+            # values that were inferred for this field stay in it: the relations they stem from still hold
+            inferred_items = self._inferred_values_of_(obj, attr)
             attr._clear()
             for v in new_items:
                 attr._add_item(v, inferred=False)
+            for v in inferred_items:
+                attr._update(v, add_relation_to_the_graph=False)
         else:
             setattr(obj, self.private_attr_name, value)
             self.add_relation_to_the_graph(obj, value)
+
+    def _inferred_values_of_(self, obj, container: MonitoredContainer) -> List[Symbol]:
+        """
+        :param obj: The owner instance.
+        :param container: The current value of the managed attribute of the owner.
+        :return: The values in the container whose relation to the owner was inferred and not asserted.
+        """
+        wrapped_instance = SymbolGraph().get_wrapped_instance(obj)
+        if wrapped_instance is None:
+            return []
+        inferred_targets = [
+            relation.target.instance
+            for relation in SymbolGraph().get_outgoing_relations_with_condition(
+                wrapped_instance,
+                lambda relation: relation.inferred
+                and relation.wrapped_field.public_name == self.wrapped_field.public_name,
+            )
+        ]
+        return [
+            item
+            for item in list(container)
+            if any(item is target for target in inferred_targets)
+        ]
 
     def update_value(
         self,
@@ -281,7 +308,15 @@ class PropertyDescriptor(Symbol):
         :param domain_value: The domain value to update (i.e., the instance that this descriptor is attached to).
         :param range_value: The range value to update (i.e., the value to set on the managed attribute).
         """
-        v = getattr(domain_value, self.private_attr_name)
+        if self.is_iterable and not hasattr(domain_value, self.private_attr_name):
+            # the instance is still being constructed (a field that was set earlier by its __init__ inferred this value),
+            # its own __init__ has not reached this field yet.
+            container = self._ensure_monitored_type(
+                self.wrapped_field.container_type(), domain_value
+            )
+            self._bind_owner_if_container_type(container, owner=domain_value)
+            setattr(domain_value, self.private_attr_name, container)
+        v = getattr(domain_value, self.private_attr_name, None)
         updated = False
         if isinstance(v, MonitoredContainer):
             updated = v._update(range_value, add_relation_to_the_graph=False)
